@@ -3,7 +3,15 @@
 Clauses: unit normals, dV = |dA|, unit tangents orthogonal to the normal and (3d) spanning the face, outward normals, cells_faces on
 the first face of the boundary cell, area vector of every face from its corner points (linear types) and from the rim of
 cells_faces (all types, also on masked regions), closure, flux = dim * volume of the corresponding volume region (and of the
-generator's closed-form volume where the workload declares it), per-cell closure."""
+generator's closed-form volume where the workload declares it), per-cell closure.
+
+Fourth audit (mirrored oracles): the flags that gate the clauses (only_surface, ensure_3d, mask, the rule) are those the CALLER passed
+(the hook sits on the templates as well, whose arguments are the caller's; what the region stores is not asked), all geometry is
+computed from the caller's points (the region's points must be those), and the boundary cell itself - whose complementary half
+enters no area vector - is judged against an own table: it is the parent cell numbered from another corner by a proper rotation of
+the reference cell, with the face on the side "last coordinate = -1"."""
+import itertools
+
 import numpy as np
 
 from .. import attach
@@ -13,6 +21,57 @@ VOLUME_REGION = {"quad": "RegionQuad", "quad8": "RegionQuadraticQuad", "quad9": 
                  "hexahedron": "RegionHexahedron", "hexahedron20": "RegionQuadraticHexahedron",
                  "hexahedron27": "RegionTriQuadraticHexahedron"}
 NV = {"quad": 4, "quad8": 4, "quad9": 4, "hexahedron": 8, "hexahedron20": 8, "hexahedron27": 8}
+
+TEMPLATES = ("RegionQuadBoundary", "RegionQuadraticQuadBoundary", "RegionBiQuadraticQuadBoundary", "RegionHexahedronBoundary",
+             "RegionQuadraticHexahedronBoundary", "RegionTriQuadraticHexahedronBoundary")
+
+
+def _reference_nodes():
+    """Reference coordinates of the nodes of the six cell types, written down from the (VTK) numbering convention itself:
+    corners counter-clockwise (bottom, then top), mid-edge nodes in the order of the edges (bottom ring, top ring, verticals),
+    mid-face nodes -x +x -y +y -z +z, centre.  Own table: nothing is read from the library's elements or boundary tables."""
+    q = np.array([[-1, -1], [1, -1], [1, 1], [-1, 1]], float)
+    h = np.array([[-1, -1, -1], [1, -1, -1], [1, 1, -1], [-1, 1, -1], [-1, -1, 1], [1, -1, 1], [1, 1, 1], [-1, 1, 1]], float)
+    qe = [(0, 1), (1, 2), (2, 3), (3, 0)]
+    he = qe + [(4, 5), (5, 6), (6, 7), (7, 4), (0, 4), (1, 5), (2, 6), (3, 7)]
+    q8 = np.vstack([q] + [0.5 * (q[a] + q[b]) for a, b in qe])
+    h20 = np.vstack([h] + [0.5 * (h[a] + h[b]) for a, b in he])
+    hf = np.array([[-1, 0, 0], [1, 0, 0], [0, -1, 0], [0, 1, 0], [0, 0, -1], [0, 0, 1], [0, 0, 0]], float)
+    return {"quad": q, "quad8": q8, "quad9": np.vstack([q8, [[0.0, 0.0]]]), "hexahedron": h, "hexahedron20": h20,
+            "hexahedron27": np.vstack([h20, hf])}
+
+
+REF = _reference_nodes()
+
+
+def proper_rotations(dim):
+    """The rotations of the reference cell onto itself (signed permutation matrices of determinant +1) without the identity."""
+    out = []
+    for p in itertools.permutations(range(dim)):
+        for sg in itertools.product((-1.0, 1.0), repeat=dim):
+            Q = np.zeros((dim, dim))
+            Q[np.arange(dim), p] = sg
+            if np.linalg.det(Q) > 0 and not np.allclose(Q, np.eye(dim)):
+                out.append(Q)
+    return out
+
+
+def local_renumbering(cell_type, Q):
+    """perm with REF[perm[a]] = Q REF[a]: ``cells[:, perm]`` is the same cell, numbered from another corner (still positive)."""
+    ref = REF[cell_type]
+    return np.array([int(np.where(np.all(np.isclose(ref, Q @ x), axis=1))[0][0]) for x in ref])
+
+
+_NUMBERINGS = {}
+
+
+def numberings(cell_type):
+    """All numberings of one cell that leave it the same positive cell: (4 resp. 24, nodes per cell)."""
+    if cell_type not in _NUMBERINGS:
+        dim = REF[cell_type].shape[1]
+        _NUMBERINGS[cell_type] = np.array([local_renumbering(cell_type, Q) for Q in [np.eye(dim)] + proper_rotations(dim)])
+    return _NUMBERINGS[cell_type]
+
 
 # meshes the workload declares as generated (valid by construction), with the volume of the body where the generator knows it in
 # closed form: the hook then judges the flux against that number as well (the library's volume region and its boundary region
@@ -76,7 +135,10 @@ def rim_area_vectors(P, dim):
     return ref
 
 
-def check_boundary_region(run, rb, parent_mesh, label=None, precondition_valid=True, volume=None, generated=False):
+def check_boundary_region(run, rb, parent_mesh, label=None, precondition_valid=True, volume=None, generated=False, flags=None):
+    """``flags``: what the caller of the constructor asked for - only_surface, ensure_3d, masked (a mask was passed), nq (points of
+    the rule the caller passed, None if the caller left the rule to the template). Without it (regions that went through copy /
+    reload, judged by the workload) the region's own attributes gate the clauses as before."""
     import felupe as fem
     ct = rb.mesh.cell_type
     if ct not in NV or not getattr(rb, "evaluate_gradient", True) or not hasattr(rb, "dA"):
@@ -89,17 +151,41 @@ def check_boundary_region(run, rb, parent_mesh, label=None, precondition_valid=T
         return
     dim = parent_mesh.points.shape[1]
     tag = label or ct
-    unit = "%s:only_surface=%s" % (ct, bool(rb.only_surface))
+    if flags is None:
+        only_surface, ensure_3d, masked, nq_asked = bool(rb.only_surface), bool(rb.ensure_3d), rb.mask is not None, None
+    else:
+        only_surface, ensure_3d, masked, nq_asked = bool(flags["only_surface"]), bool(flags["ensure_3d"]), bool(flags["masked"]), flags.get("nq")
+    unit = "%s:only_surface=%s" % (ct, only_surface)
     cells = rb.mesh.cells
     if len(cells) == 0:
         run.skip(mon, "empty selection")
         return
-    pts = rb.mesh.points
+    key = "celltype=%s only_surface=%s " % (tag if label else ct, only_surface)
+    # the region describes the body the caller handed over: its points are those points, bit for bit (the constructor copies the
+    # mesh, copy / reload take the given arrays). All geometry below is computed from the caller's points, not from the region's
+    pts = np.asarray(parent_mesh.points)
+    if np.shape(rb.mesh.points) != pts.shape:
+        run.fail(mon, key + "clause=points-of-the-region", "%s: the points of the region's mesh are not the points of the body" % tag,
+                 {"region": np.shape(rb.mesh.points), "body": pts.shape})
+        return
+    if np.array_equal(np.asarray(rb.mesh.points), pts):
+        run.ok(mon, unit=ct + ":points-of-the-region")
+    else:
+        run.fail(mon, key + "clause=points-of-the-region", "%s: the points of the region's mesh are not the points of the body" % tag,
+                 {"max difference": maxabs(np.asarray(rb.mesh.points) - pts)})
     nq = rb.quadrature.npoints
     dA, dV, n = np.asarray(rb.dA), np.asarray(rb.dV), np.asarray(rb.normals)
+    if nq_asked is not None:
+        # dA, dV, normals are given at the points of the rule the caller passed (a template that drops the argument integrates with
+        # another rule: every identity below still holds)
+        if dA.shape[1] == dV.shape[0] == n.shape[1] == nq == nq_asked:
+            run.ok(mon, unit=ct + ":points-of-the-requested-rule")
+        else:
+            run.fail(mon, key + "clause=points-of-the-requested-rule", "%s: dA / dV / normals are not given at the points of the rule that was "
+                     "passed" % tag, {"dA": dA.shape, "dV": dV.shape, "points of the rule": nq_asked})
+            return
     dA_d, n_d = dA[:dim], n[:dim]
     scale = float(np.abs(dV).sum())
-    key = "celltype=%s only_surface=%s " % (tag if label else ct, bool(rb.only_surface))
 
     # preconditions: the parent mesh must be valid (positive volumes) for the clauses to apply
     positive, vol, vmin = measured_volume(fem, ct, parent_mesh)
@@ -119,7 +205,7 @@ def check_boundary_region(run, rb, parent_mesh, label=None, precondition_valid=T
     run.compare(mon, key + "clause=normal-parallel-dA", maxabs(n * dV - dA) / max(maxabs(dV), 1e-300), 1e-12,
                 "%s: normals are not dA/|dA|" % tag, unit=unit + ":normals")
     ntan = len(rb.tangents)
-    exp_tan = 2 if (dim == 3 or rb.ensure_3d) else 1
+    exp_tan = 2 if (dim == 3 or ensure_3d) else 1
     if ntan != exp_tan:
         run.fail(mon, key + "clause=tangent-count", "%s: %d tangents, expected %d" % (tag, ntan, exp_tan))
     for k, t in enumerate(rb.tangents):
@@ -142,12 +228,38 @@ def check_boundary_region(run, rb, parent_mesh, label=None, precondition_valid=T
         else:
             run.fail(mon, key + "clause=tangent-span", "%s: the two tangents do not span the face (|t1 x t2 . n| = %.2e)" % (tag, span.min()),
                      {"min": float(span.min())}, unit=unit + ":tangent-span")
-    if rb.ensure_3d and dim == 2:
+    if dim == 2 and not ensure_3d and not (dA.shape[0] == n.shape[0] == 2):
+        run.fail(mon, key + "clause=ensure_3d", "%s: 3d vectors although ensure_3d was not asked for" % tag)
+    if ensure_3d and dim == 2:
         ok = dA.shape[0] == 3 and n.shape[0] == 3 and maxabs(dA[2]) == 0 and maxabs(n[2]) == 0
         if ok:
             run.ok(mon, unit=ct + ":ensure_3d")
         else:
             run.fail(mon, key + "clause=ensure_3d", "%s: ensure_3d does not give 3d vectors with zero third component" % tag)
+
+    # the boundary cell is the parent cell numbered from another corner, such that the face is the side "last reference coordinate
+    # = -1" of it: own table of reference coordinates, the 4 resp. 24 proper rotations of the reference cell. Area vectors, normals,
+    # tangents, flux and closure only feel the nodes on the face (all other shape functions and their tangential derivatives vanish
+    # there); the complementary half of the library's tables decides dXdr[:, -1], drdX and dhdX of the region, i.e. every gradient
+    # evaluated on the surface - and it carries the centroid / the owner the clauses below use (a set of corners: a cell with two
+    # nodes exchanged has the same). Judged for every selection of faces.
+    P_cells = np.asarray(parent_mesh.cells)
+    cf = np.asarray(rb.mesh.cells_faces)
+    if getattr(parent_mesh, "cell_type", ct) == ct and P_cells.ndim == 2 and P_cells.shape[1] == REF[ct].shape[0] == cells.shape[1]:
+        parent = {frozenset(c): k for k, c in enumerate(P_cells.tolist())}
+        owner = np.array([parent.get(frozenset(c), -1) for c in cells.tolist()])
+        if (owner < 0).any():
+            run.fail(mon, key + "clause=face-owner", "%s: a boundary cell is not a permutation of a mesh cell" % tag)
+        same_cell = (P_cells[owner][:, numberings(ct)] == np.asarray(cells)[:, None, :]).all(-1).any(-1) & (owner >= 0)
+        first = REF[ct][:, -1] == -1.0
+        on_first = np.array([set(c[first]) == set(f) for c, f in zip(np.asarray(cells), cf)]) if len(cf) == len(cells) else np.zeros(len(cells), bool)
+        if same_cell.all() and on_first.all():
+            run.ok(mon, unit=ct + ":rotated-cell", config=(tag, "rotated-cell"))
+        else:
+            bad = np.where(~(same_cell & on_first))[0]
+            run.fail(mon, key + "clause=rotated-cell", "%s: %d boundary cell(s) are not the parent cell numbered from another corner with the face "
+                     "on the side r_last = -1" % (tag, len(bad)), {"boundary cells": bad[:10], "not a rotation": int((~same_cell).sum()),
+                                                                  "face elsewhere": int((~on_first).sum())})
 
     # quadrature point positions on the faces and parent-cell centroids (vertex mean)
     xq = np.einsum("caI,aqc->Iqc", pts[cells], np.broadcast_to(rb.h, (rb.h.shape[0], nq, len(cells))))
@@ -197,8 +309,8 @@ def check_boundary_region(run, rb, parent_mesh, label=None, precondition_valid=T
                     "%s: the area vector of a face is not the one enclosed by its rim (cells_faces)" % tag, unit=unit + ":face-rim",
                     config=(tag, "face-rim"))
 
-    closed = rb.mask is None
-    if closed and rb.only_surface:
+    closed = not masked
+    if closed and only_surface:
         run.compare(mon, key + "clause=closure", maxabs(dA_d.sum((1, 2))) / scale, 1e-12,
                     "%s: area vectors of the closed surface do not sum to zero" % tag, unit=unit + ":closure",
                     config=(tag, "closure"))
@@ -207,14 +319,14 @@ def check_boundary_region(run, rb, parent_mesh, label=None, precondition_valid=T
         run.compare(mon, key + "clause=flux", abs(flux - dim * vol) / (dim * vol), 1e-11,
                     "%s: flux of the position vector != dim * volume" % tag, unit=unit + ":flux",
                     config=(tag, "flux"), sample={"cell_type": ct, "faces": len(cells), "flux": flux, "dim*V": dim * vol,
-                                                  "only_surface": bool(rb.only_surface), "label": tag})
+                                                  "only_surface": only_surface, "label": tag})
         if volume is not None:
             # the volume of the body as the generator knows it (box, affine image, domain-preserving distortion): surface and
             # volume region computed from the same wrong geometry would agree with each other, not with this number
             run.compare(mon, key + "clause=flux-analytic-volume", abs(flux - dim * volume) / (dim * abs(volume)), 1e-11,
                         "%s: flux of the position vector != dim * (volume of the generated body)" % tag,
                         unit=unit + ":flux-analytic", config=(tag, "flux-analytic"))
-    if closed and not rb.only_surface:
+    if closed and not only_surface:
         # per-cell closure: group faces by parent cell (same point set)
         parent = {frozenset(c.tolist()): k for k, c in enumerate(parent_mesh.cells)}
         owner = np.array([parent.get(frozenset(c.tolist()), -1) for c in cells])
@@ -235,6 +347,7 @@ def check_boundary_region(run, rb, parent_mesh, label=None, precondition_valid=T
 
 
 def attach_hook(run):
+    import felupe as fem
     from felupe.region._boundary import RegionBoundary
 
     def post(obj, arguments):
@@ -243,6 +356,22 @@ def attach_hook(run):
         if mesh is None:
             return
         generated, volume = declared(mesh)
-        check_boundary_region(run, obj, mesh, volume=volume, generated=generated)
+        # the flags as the caller passed them (the hexahedron templates take ensure_3d among their keyword arguments), else the
+        # documented defaults: only_surface=True, mask=None, ensure_3d=False. The rule only if the caller passed one (the templates'
+        # default rules are not part of the documentation).
+        more = arguments.get("kwargs") or {}
 
+        def asked(name, default):
+            return more[name] if name in more else arguments.documented(name, default)
+
+        flags = {"only_surface": bool(asked("only_surface", True)), "ensure_3d": bool(asked("ensure_3d", False)),
+                 "masked": asked("mask", None) is not None, "nq": None}
+        if "quadrature" in arguments.given and hasattr(arguments["quadrature"], "weights"):
+            flags["nq"] = len(np.asarray(arguments["quadrature"].weights).ravel())
+        check_boundary_region(run, obj, mesh, volume=volume, generated=generated, flags=flags)
+
+    # the outermost constructor is the one the caller called: the templates hand their own idea of the arguments to RegionBoundary
+    # (a template that drops a flag or the rule builds a region that is consistent in itself)
+    for name in TEMPLATES:
+        attach.wrap_init(getattr(fem, name), post)
     attach.wrap_init(RegionBoundary, post)
